@@ -58,9 +58,32 @@ func runC15(c *Ctx) {
 	if opCode != nil {
 		iface := opCode.Underlying().(*types.Interface)
 		scope := c.pkg(rel).Types.Scope()
+		// a struct that only serves as the embedded base of the operations (carrying the shared key field and its
+		// accessor) is not an operation of its own
+		embeddedBase := map[string]bool{}
+		for _, n := range scope.Names() {
+			if tn, ok := scope.Lookup(n).(*types.TypeName); ok {
+				if st, isSt := tn.Type().Underlying().(*types.Struct); isSt {
+					for i := 0; i < st.NumFields(); i++ {
+						if f := st.Field(i); f.Embedded() {
+							ft := f.Type()
+							if p, isP := ft.(*types.Pointer); isP {
+								ft = p.Elem()
+							}
+							if nn, isN := ft.(*types.Named); isN {
+								embeddedBase[nn.Obj().Name()] = true
+							}
+						}
+					}
+				}
+			}
+		}
 		for _, n := range scope.Names() {
 			if tn, ok := scope.Lookup(n).(*types.TypeName); ok {
 				if _, isIface := tn.Type().Underlying().(*types.Interface); isIface {
+					continue
+				}
+				if embeddedBase[tn.Name()] && !tn.Exported() {
 					continue
 				}
 				if types.Implements(types.NewPointer(tn.Type()), iface) {
@@ -149,7 +172,15 @@ func runC15(c *Ctx) {
 			for _, m := range []string{"Get", "Peek", "Set", "Delete"} {
 				if isCacheCall(e, m) {
 					k := e.Args[1].strip()
-					good := k.Kind == KInit && k.Args[0].Kind == KFieldAddr && k.Args[0].Field.Name() == "k" && opSym != nil && k.Args[0].Args[0].Key() == opSym.Key()
+					good := k.Kind == KInit && k.Args[0].Kind == KFieldAddr && k.Args[0].Field.Name() == "k" && opSym != nil
+					if good {
+						// the key field of the operation itself, or promoted from a struct embedded in it
+						base := k.Args[0].Args[0]
+						for base.Kind == KFieldAddr && base.Field != nil && base.Field.Embedded() {
+							base = base.Args[0]
+						}
+						good = base.Key() == opSym.Key()
+					}
 					if !good && a.key {
 						a.key = false
 						c.violated("C15.key", cons, e.Pos, "a cache call uses a key other than the key of the operation being handled: "+c.short(k.Key()), c.witness(t, i)...)
@@ -564,14 +595,18 @@ func (c *Ctx) checkMuxLoop(inl func(*ssa.Function, int) bool) {
 			iters++
 			item, derr := t.Events[di].Res.Args[0], t.Events[di].Res.Args[1]
 			facts := t.factsBefore(end)
-			got := hasFact(facts, func(f Fact) bool { return f.X.Key() == derr.Key() && f.Op == token.EQL && f.Y.isNilConst() })
+			// `for e, err := Pop(); err == nil; e, err = Pop()`: at the loop test the two variables hold the results of
+			// the dequeue just made
+			got := hasFact(facts, func(f Fact) bool {
+				return (f.X.Key() == derr.Key() || (f.Idx > di && popPhi(f.X, 1))) && f.Op == token.EQL && f.Y.isNilConst()
+			})
 			handled := 0
 			for j := di + 1; j < end; j++ {
 				e := t.Events[j]
 				if e.Kind == EvCall && e.Callee == handle {
 					handled++
 					a := e.Args[1]
-					if !(a.Kind == KOp && a.Name == "typeassert" && a.Args[0].Key() == item.Key()) && ok {
+					if !(a.Kind == KOp && a.Name == "typeassert" && (a.Args[0].Key() == item.Key() || popPhi(a.Args[0], 0))) && ok {
 						ok = false
 						c.violated("C15.worker-loop", cons, e.Pos, "the item handled is not the item dequeued", c.witness(t, j)...)
 					}
@@ -835,4 +870,77 @@ func (c *Ctx) checkMuxEnqueue() {
 	if good {
 		c.check(n > 0, "C15.worker-loop", "(*mux.Worker).asyncCall enqueue", fn.Pos(), "AddReq only", "asyncCall does not enqueue the operation on the worker's queue")
 	}
+}
+
+// popPhi: x is a loop-carried variable all of whose incoming values are result #idx of a dequeue call
+// (Pop / PopAnyway) — the loop variable of `for e, err := q.Pop(); err == nil; e, err = q.Pop()`.
+func popPhi(x *Sym, idx int) bool {
+	for x != nil && x.Kind == KConv {
+		x = x.Args[0]
+	}
+	if x == nil || x.Kind != KFresh || x.Name != "loop" {
+		return false
+	}
+	phi, ok := x.Ref.(*ssa.Phi)
+	if !ok || len(phi.Edges) == 0 {
+		return false
+	}
+	for _, ed := range phi.Edges {
+		ex, isEx := ed.(*ssa.Extract)
+		if !isEx || ex.Index != idx {
+			return false
+		}
+		call, isCall := ex.Tuple.(*ssa.Call)
+		if !isCall {
+			return false
+		}
+		name := ""
+		if call.Call.IsInvoke() {
+			name = call.Call.Method.Name()
+		} else if sc := call.Call.StaticCallee(); sc != nil {
+			name = sc.Name()
+		}
+		if name != "Pop" && name != "PopAnyway" {
+			return false
+		}
+	}
+	return true
+}
+
+// producerPhi: x is a loop-carried variable all of whose incoming values are result #idx of calls of one and the
+// same function or method (`for v, ok := next(); ok; v, ok = next()`); returns that callee's name, "" otherwise.
+func producerPhi(x *Sym, idx int) string {
+	for x != nil && x.Kind == KConv {
+		x = x.Args[0]
+	}
+	if x == nil || x.Kind != KFresh || x.Name != "loop" {
+		return ""
+	}
+	phi, ok := x.Ref.(*ssa.Phi)
+	if !ok || len(phi.Edges) == 0 {
+		return ""
+	}
+	name := ""
+	for _, ed := range phi.Edges {
+		var call *ssa.Call
+		if ex, isEx := ed.(*ssa.Extract); isEx && ex.Index == idx {
+			call, _ = ex.Tuple.(*ssa.Call)
+		} else if cl, isCall := ed.(*ssa.Call); isCall && idx == 0 {
+			call = cl
+		}
+		if call == nil {
+			return ""
+		}
+		n := ""
+		if call.Call.IsInvoke() {
+			n = call.Call.Method.FullName()
+		} else if sc := call.Call.StaticCallee(); sc != nil {
+			n = sc.String()
+		}
+		if n == "" || (name != "" && n != name) {
+			return ""
+		}
+		name = n
+	}
+	return name
 }
